@@ -776,18 +776,18 @@ class DataFrameSchemaBackend(PandasSchemaBackend):
     @validate_scope(scope=ValidationScope.DATA)
     def check_column_values_are_unique(
         self, check_obj: pd.DataFrame, schema
-    ) -> CoreCheckResult:
+    ) -> List[CoreCheckResult]:
         """Check that column values are unique."""
 
-        passed = True
-        message = None
-        failure_cases = None
+        results: List[CoreCheckResult] = []
 
         if not schema.unique:
-            return CoreCheckResult(
-                passed=passed,
-                check="dataframe_column_labels_unique",
-            )
+            return [
+                CoreCheckResult(
+                    passed=True,
+                    check="dataframe_column_labels_unique",
+                )
+            ]
 
         # NOTE: fix this pylint error
         # pylint: disable=not-an-iterable
@@ -816,16 +816,27 @@ class DataFrameSchemaBackend(PandasSchemaBackend):
                 else:
                     failure_cases = check_obj.loc[duplicates, subset]
 
-                passed = False
-                message = f"columns '{*subset,}' not unique:\n{failure_cases}"
-                failure_cases = reshape_failure_cases(
-                    failure_cases, ignore_na=False
+                # every violated set of columns is reported
+                results.append(
+                    CoreCheckResult(
+                        passed=False,
+                        check="multiple_fields_uniqueness",
+                        reason_code=SchemaErrorReason.DUPLICATES,
+                        message=(
+                            f"columns '{*subset,}' not unique:\n"
+                            f"{failure_cases}"
+                        ),
+                        failure_cases=reshape_failure_cases(
+                            failure_cases, ignore_na=False
+                        ),
+                    )
                 )
-                break
-        return CoreCheckResult(
-            passed=passed,
-            check="multiple_fields_uniqueness",
-            reason_code=SchemaErrorReason.DUPLICATES,
-            message=message,
-            failure_cases=failure_cases,
-        )
+        if not results:
+            results.append(
+                CoreCheckResult(
+                    passed=True,
+                    check="multiple_fields_uniqueness",
+                    reason_code=SchemaErrorReason.DUPLICATES,
+                )
+            )
+        return results
